@@ -196,33 +196,44 @@ end FoldSet
 
 /-! ## B. apply_matcher -/
 
-/-- lookup in `buildDict` with unique keys returns the row carrying that key -/
-theorem buildDict_get (rows : List Row) (keyIdx : Nat) (h : (rows.map (·.cell keyIdx)).Nodup) (row : Row) (hr : row ∈ rows) :
-    Dict.get? (buildDict rows keyIdx) (row.cell keyIdx) = some row :=
-  get?_foldl_set_of_mem (fun r : Row => r.cell keyIdx) (fun r => r) rows [] h row hr
+/-- lookup in `buildDict` with (Python-)unique keys returns the row whose key is Python-equal to the probe -/
+theorem buildDict_get (rows : List Row) (keyIdx : Nat) (h : PyDistinct (rows.map (·.cell keyIdx))) (row : Row)
+    (hr : row ∈ rows) (k : Cell) (hk : (row.cell keyIdx).pyEq k = true) :
+    Dict.getPy? (buildDict rows keyIdx) k = some row :=
+  getPy?_foldl_setPy_of_mem (fun r : Row => r.cell keyIdx) (fun r => r) rows [] h row hr k hk
 
-/-- whatever `buildDict` returns for a key is a row of the table carrying that key -/
+/-- … in particular the row carrying exactly that key -/
+theorem buildDict_get_self (rows : List Row) (keyIdx : Nat) (h : PyDistinct (rows.map (·.cell keyIdx))) (row : Row)
+    (hr : row ∈ rows) : Dict.getPy? (buildDict rows keyIdx) (row.cell keyIdx) = some row :=
+  buildDict_get rows keyIdx h row hr _ (Cell.pyEq_refl _)
+
+/-- whatever `buildDict` returns for a probe is a row of the table whose key is Python-equal to the probe -/
 theorem buildDict_get_some (rows : List Row) (keyIdx : Nat) (k : Cell) (row : Row)
-    (h : Dict.get? (buildDict rows keyIdx) k = some row) : row ∈ rows ∧ row.cell keyIdx = k := by
-  rcases get?_foldl_set_some (fun r : Row => r.cell keyIdx) (fun r => r) rows [] k row h with ⟨a, ha, hk, hv⟩ | h'
+    (h : Dict.getPy? (buildDict rows keyIdx) k = some row) : row ∈ rows ∧ (row.cell keyIdx).pyEq k = true := by
+  rcases getPy?_foldl_setPy_some (fun r : Row => r.cell keyIdx) (fun r => r) rows [] k row h with ⟨a, ha, hk, hv⟩ | h'
   · cases hv; exact ⟨ha, hk⟩
   · cases h'
 
-/-- a key that no row carries is absent from `buildDict` -/
-theorem buildDict_get_none (rows : List Row) (keyIdx : Nat) (k : Cell) (h : k ∉ rows.map (·.cell keyIdx)) :
-    Dict.get? (buildDict rows keyIdx) k = none :=
-  get?_foldl_set_of_not_mem (fun r : Row => r.cell keyIdx) (fun r => r) rows [] k h
+/-- a probe Python-equal to no key of the table is absent from `buildDict` -/
+theorem buildDict_get_none (rows : List Row) (keyIdx : Nat) (k : Cell) (h : ¬ PyMem k (rows.map (·.cell keyIdx))) :
+    Dict.getPy? (buildDict rows keyIdx) k = none :=
+  getPy?_foldl_setPy_of_not_mem (fun r : Row => r.cell keyIdx) (fun r => r) rows [] k (fun a ha => by
+    cases hk : (a.cell keyIdx).pyEq k with
+    | false => rfl
+    | true => exact absurd ⟨a.cell keyIdx, List.mem_map_of_mem (f := fun r : Row => r.cell keyIdx) ha, hk⟩ h)
 
-/-- the token cache holds, for a row with present join value, the tokens of that value -/
+/-- the token cache holds, for a row with present join value, the tokens of that value — under every probe
+    Python-equal to the row's key -/
 theorem generateTokens_get (rows : List Row) (keyIdx attrIdx : Nat) (tok : String → List Tok)
-    (h : (rows.map (·.cell keyIdx)).Nodup) (row : Row) (hr : row ∈ rows)
-    (hm : (row.cell attrIdx).isMissing = false) :
-    Dict.get? (generateTokens rows keyIdx attrIdx tok) (row.cell keyIdx) = some (tok (row.cell attrIdx).strVal) := by
-  have hnd : ((rows.filter (fun r => !(r.cell attrIdx).isMissing)).map (·.cell keyIdx)).Nodup :=
+    (h : PyDistinct (rows.map (·.cell keyIdx))) (row : Row) (hr : row ∈ rows)
+    (hm : (row.cell attrIdx).isMissing = false) (k : Cell) (hk : (row.cell keyIdx).pyEq k = true) :
+    Dict.getPy? (generateTokens rows keyIdx attrIdx tok) k = some (tok (row.cell attrIdx).strVal) := by
+  have hnd : PyDistinct ((rows.filter (fun r => !(r.cell attrIdx).isMissing)).map (·.cell keyIdx)) :=
     h.sublist (List.filter_sublist.map _)
   have hmem : row ∈ rows.filter (fun r => !(r.cell attrIdx).isMissing) := by
     rw [List.mem_filter]; exact ⟨hr, by rw [hm]; rfl⟩
-  exact get?_foldl_set_of_mem (fun r : Row => r.cell keyIdx) (fun r => tok (r.cell attrIdx).strVal) _ [] hnd row hmem
+  exact getPy?_foldl_setPy_of_mem (fun r : Row => r.cell keyIdx) (fun r => tok (r.cell attrIdx).strVal) _ [] hnd row hmem
+    k hk
 
 
 /-- what apply_matcher must do with one candidate row `cr`, given the looked-up source rows -/
@@ -248,8 +259,8 @@ def matcherRowM (a : MatcherArgs) (candLIdx candRIdx : Nat)
     (cr : Row) : Except PyErr (Option Row) := do
   let lId := cr.cell candLIdx
   let rId := cr.cell candRIdx
-  let lRow ← match Dict.get? (buildDict lRows lKeyIdx) lId with | some r => pure r | none => throw PyErr.other
-  let rRow ← match Dict.get? (buildDict rRows rKeyIdx) rId with | some r => pure r | none => throw PyErr.other
+  let lRow ← match Dict.getPy? (buildDict lRows lKeyIdx) lId with | some r => pure r | none => throw PyErr.other
+  let rRow ← match Dict.getPy? (buildDict rRows rKeyIdx) rId with | some r => pure r | none => throw PyErr.other
   let lv := lRow.cell lAttrIdx
   let rv := rRow.cell rAttrIdx
   let mk (score : Cell) : Row :=
@@ -263,7 +274,7 @@ def matcherRowM (a : MatcherArgs) (candLIdx candRIdx : Nat)
       match tok with
       | some tk =>
         match cache with
-        | some (lc, rc) => (.toks (Dict.getD lc lId []), .toks (Dict.getD rc rId []))
+        | some (lc, rc) => (.toks (Dict.getPyD lc lId []), .toks (Dict.getPyD rc rId []))
         | none => (.toks (tk lv.strVal), .toks (tk rv.strVal))
       | none => (.raw lv, .raw rv)
     let s := sim la ra
@@ -291,7 +302,7 @@ theorem Cell.strOrMissing_of_isMissing (c : Cell) (h : c.isMissing = true) : c.s
 def matcherRowRes (a : MatcherArgs) (candLIdx candRIdx : Nat)
     (lRows rRows : List Row) (lKeyIdx lAttrIdx rKeyIdx rAttrIdx : Nat) (o : OutCfg)
     (tok : Option (String → List Tok)) (sim : SimArg → SimArg → PyV) (cr : Row) : Except PyErr (Option Row) :=
-  match Dict.get? (buildDict lRows lKeyIdx) (cr.cell candLIdx), Dict.get? (buildDict rRows rKeyIdx) (cr.cell candRIdx) with
+  match Dict.getPy? (buildDict lRows lKeyIdx) (cr.cell candLIdx), Dict.getPy? (buildDict rRows rKeyIdx) (cr.cell candRIdx) with
   | some lRow, some rRow =>
     .ok (matcherRowSpec a o tok sim lAttrIdx rAttrIdx cr lRow rRow (cr.cell candLIdx) (cr.cell candRIdx))
   | _, _ => .error PyErr.other
@@ -313,7 +324,7 @@ theorem matcherRowM_none (a : MatcherArgs) (candLIdx candRIdx : Nat) (lRows rRow
     (lKeyIdx lAttrIdx rKeyIdx rAttrIdx : Nat) (o : OutCfg) (tok : Option (String → List Tok)) (sim : SimArg → SimArg → PyV)
     (cr : Row) :
     matcherRowM a candLIdx candRIdx lRows rRows lKeyIdx lAttrIdx rKeyIdx rAttrIdx o tok sim none cr
-      = (match Dict.get? (buildDict lRows lKeyIdx) (cr.cell candLIdx), Dict.get? (buildDict rRows rKeyIdx) (cr.cell candRIdx) with
+      = (match Dict.getPy? (buildDict lRows lKeyIdx) (cr.cell candLIdx), Dict.getPy? (buildDict rRows rKeyIdx) (cr.cell candRIdx) with
          | some lRow, some rRow =>
             if (tok.isSome && !((lRow.cell lAttrIdx).isMissing || (rRow.cell rAttrIdx).isMissing) &&
                 !((lRow.cell lAttrIdx).isStr && (rRow.cell rAttrIdx).isStr)) = true then .error PyErr.typeErr
@@ -321,10 +332,10 @@ theorem matcherRowM_none (a : MatcherArgs) (candLIdx candRIdx : Nat) (lRows rRow
          | _, _ => .error PyErr.other) := by
   unfold matcherRowM matcherRowSpec
   dsimp only
-  cases Dict.get? (buildDict lRows lKeyIdx) (cr.cell candLIdx) with
+  cases Dict.getPy? (buildDict lRows lKeyIdx) (cr.cell candLIdx) with
   | none => rfl
   | some lRow =>
-    cases Dict.get? (buildDict rRows rKeyIdx) (cr.cell candRIdx) with
+    cases Dict.getPy? (buildDict rRows rKeyIdx) (cr.cell candRIdx) with
     | none => rfl
     | some rRow =>
       simp only [pure_bind]
@@ -338,14 +349,14 @@ theorem matcherRowM_none_ok (a : MatcherArgs) (candLIdx candRIdx : Nat) (lRows r
     (lKeyIdx lAttrIdx rKeyIdx rAttrIdx : Nat) (o : OutCfg) (tok : Option (String → List Tok)) (sim : SimArg → SimArg → PyV)
     (cr : Row) (y : Option Row)
     (h : matcherRowM a candLIdx candRIdx lRows rRows lKeyIdx lAttrIdx rKeyIdx rAttrIdx o tok sim none cr = .ok y) :
-    y = (match Dict.get? (buildDict lRows lKeyIdx) (cr.cell candLIdx), Dict.get? (buildDict rRows rKeyIdx) (cr.cell candRIdx) with
+    y = (match Dict.getPy? (buildDict lRows lKeyIdx) (cr.cell candLIdx), Dict.getPy? (buildDict rRows rKeyIdx) (cr.cell candRIdx) with
          | some lRow, some rRow => matcherRowSpec a o tok sim lAttrIdx rAttrIdx cr lRow rRow (cr.cell candLIdx) (cr.cell candRIdx)
          | _, _ => none) := by
   rw [matcherRowM_none] at h
-  cases hl : Dict.get? (buildDict lRows lKeyIdx) (cr.cell candLIdx) with
+  cases hl : Dict.getPy? (buildDict lRows lKeyIdx) (cr.cell candLIdx) with
   | none => rw [hl] at h; cases h
   | some lRow =>
-    cases hr : Dict.get? (buildDict rRows rKeyIdx) (cr.cell candRIdx) with
+    cases hr : Dict.getPy? (buildDict rRows rKeyIdx) (cr.cell candRIdx) with
     | none => rw [hl, hr] at h; cases h
     | some rRow =>
       rw [hl, hr] at h
@@ -358,15 +369,15 @@ theorem matcherRowM_none_ok (a : MatcherArgs) (candLIdx candRIdx : Nat) (lRows r
 theorem matcherRowM_none_error (a : MatcherArgs) (candLIdx candRIdx : Nat) (lRows rRows : List Row)
     (lKeyIdx lAttrIdx rKeyIdx rAttrIdx : Nat) (o : OutCfg) (tok : Option (String → List Tok)) (sim : SimArg → SimArg → PyV)
     (cr : Row) (e : PyErr)
-    (hl : (Dict.get? (buildDict lRows lKeyIdx) (cr.cell candLIdx)).isSome)
-    (hr : (Dict.get? (buildDict rRows rKeyIdx) (cr.cell candRIdx)).isSome)
+    (hl : (Dict.getPy? (buildDict lRows lKeyIdx) (cr.cell candLIdx)).isSome)
+    (hr : (Dict.getPy? (buildDict rRows rKeyIdx) (cr.cell candRIdx)).isSome)
     (h : matcherRowM a candLIdx candRIdx lRows rRows lKeyIdx lAttrIdx rKeyIdx rAttrIdx o tok sim none cr = .error e) :
     e = .typeErr := by
   rw [matcherRowM_none] at h
-  cases hl' : Dict.get? (buildDict lRows lKeyIdx) (cr.cell candLIdx) with
+  cases hl' : Dict.getPy? (buildDict lRows lKeyIdx) (cr.cell candLIdx) with
   | none => rw [hl'] at hl; cases hl
   | some lRow =>
-    cases hr' : Dict.get? (buildDict rRows rKeyIdx) (cr.cell candRIdx) with
+    cases hr' : Dict.getPy? (buildDict rRows rKeyIdx) (cr.cell candRIdx) with
     | none => rw [hr'] at hr; cases hr
     | some rRow =>
       rw [hl', hr'] at h
@@ -382,10 +393,10 @@ theorem matcherRowM_none_str (a : MatcherArgs) (candLIdx candRIdx : Nat) (lRows 
     matcherRowM a candLIdx candRIdx lRows rRows lKeyIdx lAttrIdx rKeyIdx rAttrIdx o tok sim none cr
       = matcherRowRes a candLIdx candRIdx lRows rRows lKeyIdx lAttrIdx rKeyIdx rAttrIdx o tok sim cr := by
   rw [matcherRowM_none, matcherRowRes]
-  cases hl : Dict.get? (buildDict lRows lKeyIdx) (cr.cell candLIdx) with
+  cases hl : Dict.getPy? (buildDict lRows lKeyIdx) (cr.cell candLIdx) with
   | none => rfl
   | some lRow =>
-    cases hr : Dict.get? (buildDict rRows rKeyIdx) (cr.cell candRIdx) with
+    cases hr : Dict.getPy? (buildDict rRows rKeyIdx) (cr.cell candRIdx) with
     | none => rfl
     | some rRow =>
       dsimp only
@@ -403,16 +414,16 @@ theorem matcherRowM_none_str (a : MatcherArgs) (candLIdx candRIdx : Nat) (lRows 
     the tokenizer here (`generate_tokens` did the tokenizing), the outcome is KeyError or the row specification -/
 theorem matcherRowM_cache (a : MatcherArgs) (candLIdx candRIdx : Nat) (lRows rRows : List Row)
     (lKeyIdx lAttrIdx rKeyIdx rAttrIdx : Nat) (o : OutCfg) (tk : String → List Tok) (sim : SimArg → SimArg → PyV)
-    (hlk : (lRows.map (·.cell lKeyIdx)).Nodup) (hrk : (rRows.map (·.cell rKeyIdx)).Nodup) (cr : Row) :
+    (hlk : PyDistinct (lRows.map (·.cell lKeyIdx))) (hrk : PyDistinct (rRows.map (·.cell rKeyIdx))) (cr : Row) :
     matcherRowM a candLIdx candRIdx lRows rRows lKeyIdx lAttrIdx rKeyIdx rAttrIdx o (some tk) sim
         (some (generateTokens lRows lKeyIdx lAttrIdx tk, generateTokens rRows rKeyIdx rAttrIdx tk)) cr
       = matcherRowRes a candLIdx candRIdx lRows rRows lKeyIdx lAttrIdx rKeyIdx rAttrIdx o (some tk) sim cr := by
   unfold matcherRowM matcherRowRes matcherRowSpec
   dsimp only
-  cases hl : Dict.get? (buildDict lRows lKeyIdx) (cr.cell candLIdx) with
+  cases hl : Dict.getPy? (buildDict lRows lKeyIdx) (cr.cell candLIdx) with
   | none => rfl
   | some lRow =>
-    cases hr : Dict.get? (buildDict rRows rKeyIdx) (cr.cell candRIdx) with
+    cases hr : Dict.getPy? (buildDict rRows rKeyIdx) (cr.cell candRIdx) with
     | none => rfl
     | some rRow =>
       simp only [pure_bind]
@@ -423,10 +434,10 @@ theorem matcherRowM_cache (a : MatcherArgs) (candLIdx candRIdx : Nat) (lRows rRo
         simp only [Bool.or_eq_true, not_or, Bool.not_eq_true] at hm'
         obtain ⟨hl1, hl2⟩ := buildDict_get_some _ _ _ _ hl
         obtain ⟨hr1, hr2⟩ := buildDict_get_some _ _ _ _ hr
-        have e1 : Dict.getD (generateTokens lRows lKeyIdx lAttrIdx tk) (cr.cell candLIdx) [] = tk (lRow.cell lAttrIdx).strVal := by
-          rw [Dict.getD, ← hl2, generateTokens_get _ _ _ _ hlk lRow hl1 hm'.1]; rfl
-        have e2 : Dict.getD (generateTokens rRows rKeyIdx rAttrIdx tk) (cr.cell candRIdx) [] = tk (rRow.cell rAttrIdx).strVal := by
-          rw [Dict.getD, ← hr2, generateTokens_get _ _ _ _ hrk rRow hr1 hm'.2]; rfl
+        have e1 : Dict.getPyD (generateTokens lRows lKeyIdx lAttrIdx tk) (cr.cell candLIdx) [] = tk (lRow.cell lAttrIdx).strVal := by
+          rw [Dict.getPyD, generateTokens_get _ _ _ _ hlk lRow hl1 hm'.1 _ hl2]; rfl
+        have e2 : Dict.getPyD (generateTokens rRows rKeyIdx rAttrIdx tk) (cr.cell candRIdx) [] = tk (rRow.cell rAttrIdx).strVal := by
+          rw [Dict.getPyD, generateTokens_get _ _ _ _ hrk rRow hr1 hm'.2 _ hr2]; rfl
         rw [e1, e2]
         rfl
 
@@ -434,7 +445,7 @@ theorem matcherRowM_cache (a : MatcherArgs) (candLIdx candRIdx : Nat) (lRows rRo
 theorem applyMatcherSplit_eq_res (a : MatcherArgs) (candLIdx candRIdx : Nat) (lRows rRows : List Row)
     (lKeyIdx lAttrIdx rKeyIdx rAttrIdx : Nat) (o : OutCfg) (tok : Option (String → List Tok)) (sim : SimArg → SimArg → PyV)
     (useCache : Bool) (chunk : List Row)
-    (hlk : (lRows.map (·.cell lKeyIdx)).Nodup) (hrk : (rRows.map (·.cell rKeyIdx)).Nodup)
+    (hlk : PyDistinct (lRows.map (·.cell lKeyIdx))) (hrk : PyDistinct (rRows.map (·.cell rKeyIdx)))
     (hstr : tok.isSome → StrCells lRows lAttrIdx ∧ StrCells rRows rAttrIdx) :
     applyMatcherSplit a candLIdx candRIdx lRows rRows lKeyIdx lAttrIdx rKeyIdx rAttrIdx o tok sim
         (match (generalizing := false) tok, useCache with
@@ -458,7 +469,7 @@ theorem applyMatcherSplit_eq_res (a : MatcherArgs) (candLIdx candRIdx : Nat) (lR
 theorem applyMatcherSplit_cache_irrel (a : MatcherArgs) (candLIdx candRIdx : Nat) (lRows rRows : List Row)
     (lKeyIdx lAttrIdx rKeyIdx rAttrIdx : Nat) (o : OutCfg) (tok : Option (String → List Tok)) (sim : SimArg → SimArg → PyV)
     (useCache : Bool) (chunk : List Row)
-    (hlk : (lRows.map (·.cell lKeyIdx)).Nodup) (hrk : (rRows.map (·.cell rKeyIdx)).Nodup)
+    (hlk : PyDistinct (lRows.map (·.cell lKeyIdx))) (hrk : PyDistinct (rRows.map (·.cell rKeyIdx)))
     (hstr : tok.isSome → StrCells lRows lAttrIdx ∧ StrCells rRows rAttrIdx) :
     applyMatcherSplit a candLIdx candRIdx lRows rRows lKeyIdx lAttrIdx rKeyIdx rAttrIdx o tok sim
         (match (generalizing := false) tok, useCache with
@@ -476,7 +487,7 @@ theorem applyMatcherSplit_cache_irrel (a : MatcherArgs) (candLIdx candRIdx : Nat
 def matcherSpecFn (a : MatcherArgs) (candLIdx candRIdx : Nat) (lRows rRows : List Row)
     (lKeyIdx lAttrIdx rKeyIdx rAttrIdx : Nat) (o : OutCfg) (tok : Option (String → List Tok)) (sim : SimArg → SimArg → PyV)
     (cr : Row) : Option Row :=
-  match Dict.get? (buildDict lRows lKeyIdx) (cr.cell candLIdx), Dict.get? (buildDict rRows rKeyIdx) (cr.cell candRIdx) with
+  match Dict.getPy? (buildDict lRows lKeyIdx) (cr.cell candLIdx), Dict.getPy? (buildDict rRows rKeyIdx) (cr.cell candRIdx) with
   | some lRow, some rRow => matcherRowSpec a o tok sim lAttrIdx rAttrIdx cr lRow rRow (cr.cell candLIdx) (cr.cell candRIdx)
   | _, _ => none
 
@@ -484,9 +495,9 @@ def matcherSpecFn (a : MatcherArgs) (candLIdx candRIdx : Nat) (lRows rRows : Lis
 theorem applyMatcherSplit_spec (a : MatcherArgs) (candLIdx candRIdx : Nat) (lRows rRows : List Row)
     (lKeyIdx lAttrIdx rKeyIdx rAttrIdx : Nat) (o : OutCfg) (tok : Option (String → List Tok)) (sim : SimArg → SimArg → PyV)
     (useCache : Bool) (chunk : List Row)
-    (hl : ∀ cr ∈ chunk, (Dict.get? (buildDict lRows lKeyIdx) (cr.cell candLIdx)).isSome)
-    (hr : ∀ cr ∈ chunk, (Dict.get? (buildDict rRows rKeyIdx) (cr.cell candRIdx)).isSome)
-    (hlk : (lRows.map (·.cell lKeyIdx)).Nodup) (hrk : (rRows.map (·.cell rKeyIdx)).Nodup)
+    (hl : ∀ cr ∈ chunk, (Dict.getPy? (buildDict lRows lKeyIdx) (cr.cell candLIdx)).isSome)
+    (hr : ∀ cr ∈ chunk, (Dict.getPy? (buildDict rRows rKeyIdx) (cr.cell candRIdx)).isSome)
+    (hlk : PyDistinct (lRows.map (·.cell lKeyIdx))) (hrk : PyDistinct (rRows.map (·.cell rKeyIdx)))
     (hstr : tok.isSome → StrCells lRows lAttrIdx ∧ StrCells rRows rAttrIdx) :
     applyMatcherSplit a candLIdx candRIdx lRows rRows lKeyIdx lAttrIdx rKeyIdx rAttrIdx o tok sim
         (match (generalizing := false) tok, useCache with
@@ -494,7 +505,7 @@ theorem applyMatcherSplit_spec (a : MatcherArgs) (candLIdx candRIdx : Nat) (lRow
          | _, _ => none)
         chunk
       = .ok (chunk.filterMap (fun cr =>
-          match Dict.get? (buildDict lRows lKeyIdx) (cr.cell candLIdx), Dict.get? (buildDict rRows rKeyIdx) (cr.cell candRIdx) with
+          match Dict.getPy? (buildDict lRows lKeyIdx) (cr.cell candLIdx), Dict.getPy? (buildDict rRows rKeyIdx) (cr.cell candRIdx) with
           | some lRow, some rRow => matcherRowSpec a o tok sim lAttrIdx rAttrIdx cr lRow rRow (cr.cell candLIdx) (cr.cell candRIdx)
           | _, _ => none)) := by
   rw [applyMatcherSplit_eq_res _ _ _ _ _ _ _ _ _ _ _ _ _ _ hlk hrk hstr]
@@ -506,22 +517,23 @@ theorem applyMatcherSplit_spec (a : MatcherArgs) (candLIdx candRIdx : Nat) (lRow
     rw [matcherRowRes, matcherSpecFn]
     have h1 := hl cr hcr
     have h2 := hr cr hcr
-    cases h1' : Dict.get? (buildDict lRows lKeyIdx) (cr.cell candLIdx) with
+    cases h1' : Dict.getPy? (buildDict lRows lKeyIdx) (cr.cell candLIdx) with
     | none => rw [h1'] at h1; cases h1
     | some lRow =>
-      cases h2' : Dict.get? (buildDict rRows rKeyIdx) (cr.cell candRIdx) with
+      cases h2' : Dict.getPy? (buildDict rRows rKeyIdx) (cr.cell candRIdx) with
       | none => rw [h2'] at h2; cases h2
       | some rRow => rfl
 
-/-- one chunk fails (KeyError, `PyErr.other`) as soon as some candidate key is absent from a table;
+/-- one chunk fails (KeyError, `PyErr.other`) as soon as some candidate key is absent from a table (Python-equal
+    to none of its keys);
     together with `applyMatcherSplit_spec`: it fails iff some candidate key is absent -/
 theorem applyMatcherSplit_error (a : MatcherArgs) (candLIdx candRIdx : Nat) (lRows rRows : List Row)
     (lKeyIdx lAttrIdx rKeyIdx rAttrIdx : Nat) (o : OutCfg) (tok : Option (String → List Tok)) (sim : SimArg → SimArg → PyV)
     (useCache : Bool) (chunk : List Row)
-    (hlk : (lRows.map (·.cell lKeyIdx)).Nodup) (hrk : (rRows.map (·.cell rKeyIdx)).Nodup)
+    (hlk : PyDistinct (lRows.map (·.cell lKeyIdx))) (hrk : PyDistinct (rRows.map (·.cell rKeyIdx)))
     (hstr : tok.isSome → StrCells lRows lAttrIdx ∧ StrCells rRows rAttrIdx)
-    (hex : ∃ cr ∈ chunk, Dict.get? (buildDict lRows lKeyIdx) (cr.cell candLIdx) = none ∨
-                         Dict.get? (buildDict rRows rKeyIdx) (cr.cell candRIdx) = none) :
+    (hex : ∃ cr ∈ chunk, Dict.getPy? (buildDict lRows lKeyIdx) (cr.cell candLIdx) = none ∨
+                         Dict.getPy? (buildDict rRows rKeyIdx) (cr.cell candRIdx) = none) :
     applyMatcherSplit a candLIdx candRIdx lRows rRows lKeyIdx lAttrIdx rKeyIdx rAttrIdx o tok sim
         (match (generalizing := false) tok, useCache with
          | some tk, true => some (generateTokens lRows lKeyIdx lAttrIdx tk, generateTokens rRows rKeyIdx rAttrIdx tk)
@@ -581,9 +593,9 @@ theorem applyMatcherSplit_chunks (a : MatcherArgs) (candLIdx candRIdx : Nat) (lR
 theorem applyMatcherSplit_chunks_spec (a : MatcherArgs) (candLIdx candRIdx : Nat) (lRows rRows : List Row)
     (lKeyIdx lAttrIdx rKeyIdx rAttrIdx : Nat) (o : OutCfg) (tok : Option (String → List Tok)) (sim : SimArg → SimArg → PyV)
     (useCache : Bool) (cand : List Row) (chunks : List (List Row)) (hchunks : chunks.flatten = cand)
-    (hl : ∀ cr ∈ cand, (Dict.get? (buildDict lRows lKeyIdx) (cr.cell candLIdx)).isSome)
-    (hr : ∀ cr ∈ cand, (Dict.get? (buildDict rRows rKeyIdx) (cr.cell candRIdx)).isSome)
-    (hlk : (lRows.map (·.cell lKeyIdx)).Nodup) (hrk : (rRows.map (·.cell rKeyIdx)).Nodup)
+    (hl : ∀ cr ∈ cand, (Dict.getPy? (buildDict lRows lKeyIdx) (cr.cell candLIdx)).isSome)
+    (hr : ∀ cr ∈ cand, (Dict.getPy? (buildDict rRows rKeyIdx) (cr.cell candRIdx)).isSome)
+    (hlk : PyDistinct (lRows.map (·.cell lKeyIdx))) (hrk : PyDistinct (rRows.map (·.cell rKeyIdx)))
     (hstr : tok.isSome → StrCells lRows lAttrIdx ∧ StrCells rRows rAttrIdx) :
     (chunks.mapM (applyMatcherSplit a candLIdx candRIdx lRows rRows lKeyIdx lAttrIdx rKeyIdx rAttrIdx o tok sim
         (match (generalizing := false) tok, useCache with
@@ -620,7 +632,7 @@ theorem matcherRowSpec_cell_zero (a : MatcherArgs) (o : OutCfg) (tok : Option (S
 theorem applyMatcherSplit_ids_sublist (a : MatcherArgs) (candLIdx candRIdx : Nat) (lRows rRows : List Row)
     (lKeyIdx lAttrIdx rKeyIdx rAttrIdx : Nat) (o : OutCfg) (tok : Option (String → List Tok)) (sim : SimArg → SimArg → PyV)
     (useCache : Bool) (chunk : List Row)
-    (hlk : (lRows.map (·.cell lKeyIdx)).Nodup) (hrk : (rRows.map (·.cell rKeyIdx)).Nodup)
+    (hlk : PyDistinct (lRows.map (·.cell lKeyIdx))) (hrk : PyDistinct (rRows.map (·.cell rKeyIdx)))
     (hstr : tok.isSome → StrCells lRows lAttrIdx ∧ StrCells rRows rAttrIdx) (rows : List Row)
     (h : applyMatcherSplit a candLIdx candRIdx lRows rRows lKeyIdx lAttrIdx rKeyIdx rAttrIdx o tok sim
         (match (generalizing := false) tok, useCache with
@@ -629,16 +641,16 @@ theorem applyMatcherSplit_ids_sublist (a : MatcherArgs) (candLIdx candRIdx : Nat
         chunk = .ok rows) :
     (rows.map (·.cell 0)).Sublist (chunk.map (·.cell 0)) := by
   -- all keys resolve, otherwise the call fails
-  have hres : ∀ cr ∈ chunk, (Dict.get? (buildDict lRows lKeyIdx) (cr.cell candLIdx)).isSome ∧
-      (Dict.get? (buildDict rRows rKeyIdx) (cr.cell candRIdx)).isSome := by
+  have hres : ∀ cr ∈ chunk, (Dict.getPy? (buildDict lRows lKeyIdx) (cr.cell candLIdx)).isSome ∧
+      (Dict.getPy? (buildDict rRows rKeyIdx) (cr.cell candRIdx)).isSome := by
     intro cr hcr
     by_contra hcon
-    have : Dict.get? (buildDict lRows lKeyIdx) (cr.cell candLIdx) = none ∨
-        Dict.get? (buildDict rRows rKeyIdx) (cr.cell candRIdx) = none := by
-      cases h1 : Dict.get? (buildDict lRows lKeyIdx) (cr.cell candLIdx) with
+    have : Dict.getPy? (buildDict lRows lKeyIdx) (cr.cell candLIdx) = none ∨
+        Dict.getPy? (buildDict rRows rKeyIdx) (cr.cell candRIdx) = none := by
+      cases h1 : Dict.getPy? (buildDict lRows lKeyIdx) (cr.cell candLIdx) with
       | none => exact Or.inl rfl
       | some _ =>
-        cases h2 : Dict.get? (buildDict rRows rKeyIdx) (cr.cell candRIdx) with
+        cases h2 : Dict.getPy? (buildDict rRows rKeyIdx) (cr.cell candRIdx) with
         | none => exact Or.inr rfl
         | some _ => rw [h1, h2] at hcon; exact absurd ⟨rfl, rfl⟩ hcon
     rw [applyMatcherSplit_error a candLIdx candRIdx lRows rRows lKeyIdx lAttrIdx rKeyIdx rAttrIdx o tok sim useCache chunk
@@ -939,20 +951,19 @@ theorem chunks_filterMapM_ok {α β : Type} (f : α → Except PyErr (Option β)
   rw [List.filterMap_map]
   rfl
 
-/-- lookup of a candidate key in the projected `[key, attr]` table of `filter_candset` -/
-theorem candset_lookup (f : Frame) (key attr : String) (k v : Cell) (hnd : (f.col key).Nodup)
-    (h : ∃ row ∈ f.rows, row.cell (f.colIdx key) = k ∧ row.cell (f.colIdx attr) = v) :
-    ∃ p, Dict.get? (buildDict (f.rows.map (fun row => [row.cell (f.colIdx key), row.cell (f.colIdx attr)]))
+/-- lookup of a candidate key in the projected `[key, attr]` table of `filter_candset`: the row whose key is
+    Python-equal to the candidate key is found -/
+theorem candset_lookup (f : Frame) (key attr : String) (k v : Cell) (hnd : PyDistinct (f.col key))
+    (h : ∃ row ∈ f.rows, (row.cell (f.colIdx key)).pyEq k = true ∧ row.cell (f.colIdx attr) = v) :
+    ∃ p, Dict.getPy? (buildDict (f.rows.map (fun row => [row.cell (f.colIdx key), row.cell (f.colIdx attr)]))
             ([key, attr].idxOf key)) k = some p ∧ p.cell ([key, attr].idxOf attr) = v := by
   obtain ⟨row, hrow, hk, hv⟩ := h
   refine ⟨[row.cell (f.colIdx key), row.cell (f.colIdx attr)], ?_, ?_⟩
   · rw [List.idxOf_cons_self]
-    have hnd' : ((f.rows.map (fun row => [row.cell (f.colIdx key), row.cell (f.colIdx attr)])).map (fun r : Row => r.cell 0)).Nodup := by
+    have hnd' : PyDistinct ((f.rows.map (fun row => [row.cell (f.colIdx key), row.cell (f.colIdx attr)])).map (fun r : Row => r.cell 0)) := by
       rw [List.map_map]; exact hnd
-    have := buildDict_get _ 0 hnd' [row.cell (f.colIdx key), row.cell (f.colIdx attr)]
-      (List.mem_map_of_mem (f := fun row : Row => [row.cell (f.colIdx key), row.cell (f.colIdx attr)]) hrow)
-    rw [← hk]
-    exact this
+    exact buildDict_get _ 0 hnd' [row.cell (f.colIdx key), row.cell (f.colIdx attr)]
+      (List.mem_map_of_mem (f := fun row : Row => [row.cell (f.colIdx key), row.cell (f.colIdx attr)]) hrow) k hk
   · by_cases hka : key = attr
     · subst hka
       rw [List.idxOf_cons_self]
@@ -974,9 +985,9 @@ theorem filterCandset_spec (a : CandsetArgs) (fp : Cell → Cell → Except PyEr
     (hv7 : validateAttrType a.lAttr l = .ok ()) (hv8 : validateAttrType a.rAttr r = .ok ())
     (hv9 : validateKeyAttr a.lKey l = .ok ()) (hv10 : validateKeyAttr a.rKey r = .ok ())
     (lval rval : Row → Cell)
-    (hl : ∀ cr ∈ c.rows, ∃ lrow ∈ l.rows, lrow.cell (l.colIdx a.lKey) = cr.cell (c.colIdx a.candLKey) ∧
+    (hl : ∀ cr ∈ c.rows, ∃ lrow ∈ l.rows, (lrow.cell (l.colIdx a.lKey)).pyEq (cr.cell (c.colIdx a.candLKey)) = true ∧
                                          lrow.cell (l.colIdx a.lAttr) = lval cr)
-    (hr : ∀ cr ∈ c.rows, ∃ rrow ∈ r.rows, rrow.cell (r.colIdx a.rKey) = cr.cell (c.colIdx a.candRKey) ∧
+    (hr : ∀ cr ∈ c.rows, ∃ rrow ∈ r.rows, (rrow.cell (r.colIdx a.rKey)).pyEq (cr.cell (c.colIdx a.candRKey)) = true ∧
                                          rrow.cell (r.colIdx a.rAttr) = rval cr)
     (hfp : ∀ cr ∈ c.rows, fp (lval cr) (rval cr) = .ok (fpb (lval cr) (rval cr)))
     (hchunks : (chunksFor (candLabelled c) a.nJobs cpu).flatten = candLabelled c) :
@@ -996,8 +1007,8 @@ theorem filterCandset_spec (a : CandsetArgs) (fp : Cell → Cell → Except PyEr
     · intro x hx
       rw [hchunks] at hx
       have hmem : x.1 ∈ c.rows := (List.of_mem_zip (a := x.1) (b := x.2) hx).1
-      obtain ⟨pl, hpl1, hpl2⟩ := candset_lookup l a.lKey a.lAttr _ _ (nodup_of_validateKeyAttr _ _ hv9) (hl x.1 hmem)
-      obtain ⟨pr, hpr1, hpr2⟩ := candset_lookup r a.rKey a.rAttr _ _ (nodup_of_validateKeyAttr _ _ hv10) (hr x.1 hmem)
+      obtain ⟨pl, hpl1, hpl2⟩ := candset_lookup l a.lKey a.lAttr _ _ (pyDistinct_of_validateKeyAttr _ _ hv9) (hl x.1 hmem)
+      obtain ⟨pr, hpr1, hpr2⟩ := candset_lookup r a.rKey a.rAttr _ _ (pyDistinct_of_validateKeyAttr _ _ hv10) (hr x.1 hmem)
       simp only [hpl1, hpr1, hpl2, hpr2, pure_bind, hfp x.1 hmem]
       rfl
 
@@ -1017,9 +1028,9 @@ theorem filterCandset_rows (a : CandsetArgs) (fp : Cell → Cell → Except PyEr
     (hv7 : validateAttrType a.lAttr l = .ok ()) (hv8 : validateAttrType a.rAttr r = .ok ())
     (hv9 : validateKeyAttr a.lKey l = .ok ()) (hv10 : validateKeyAttr a.rKey r = .ok ())
     (lval rval : Row → Cell)
-    (hl : ∀ cr ∈ c.rows, ∃ lrow ∈ l.rows, lrow.cell (l.colIdx a.lKey) = cr.cell (c.colIdx a.candLKey) ∧
+    (hl : ∀ cr ∈ c.rows, ∃ lrow ∈ l.rows, (lrow.cell (l.colIdx a.lKey)).pyEq (cr.cell (c.colIdx a.candLKey)) = true ∧
                                          lrow.cell (l.colIdx a.lAttr) = lval cr)
-    (hr : ∀ cr ∈ c.rows, ∃ rrow ∈ r.rows, rrow.cell (r.colIdx a.rKey) = cr.cell (c.colIdx a.candRKey) ∧
+    (hr : ∀ cr ∈ c.rows, ∃ rrow ∈ r.rows, (rrow.cell (r.colIdx a.rKey)).pyEq (cr.cell (c.colIdx a.candRKey)) = true ∧
                                          rrow.cell (r.colIdx a.rAttr) = rval cr)
     (hfp : ∀ cr ∈ c.rows, fp (lval cr) (rval cr) = .ok (fpb (lval cr) (rval cr)))
     (hchunks : (chunksFor (candLabelled c) a.nJobs cpu).flatten = candLabelled c) :
@@ -1067,9 +1078,9 @@ theorem applyMatcherSplit_spec' (a : MatcherArgs) (candLIdx candRIdx : Nat) (lRo
     (cache : Option (List (Cell × List Tok) × List (Cell × List Tok))) (chunk : List Row)
     (hcache : cache = none ∨ ∃ tk, tok = some tk ∧
       cache = some (generateTokens lRows lKeyIdx lAttrIdx tk, generateTokens rRows rKeyIdx rAttrIdx tk))
-    (hl : ∀ cr ∈ chunk, (Dict.get? (buildDict lRows lKeyIdx) (cr.cell candLIdx)).isSome)
-    (hr : ∀ cr ∈ chunk, (Dict.get? (buildDict rRows rKeyIdx) (cr.cell candRIdx)).isSome)
-    (hlk : (lRows.map (·.cell lKeyIdx)).Nodup) (hrk : (rRows.map (·.cell rKeyIdx)).Nodup)
+    (hl : ∀ cr ∈ chunk, (Dict.getPy? (buildDict lRows lKeyIdx) (cr.cell candLIdx)).isSome)
+    (hr : ∀ cr ∈ chunk, (Dict.getPy? (buildDict rRows rKeyIdx) (cr.cell candRIdx)).isSome)
+    (hlk : PyDistinct (lRows.map (·.cell lKeyIdx))) (hrk : PyDistinct (rRows.map (·.cell rKeyIdx)))
     (hstr : tok.isSome → StrCells lRows lAttrIdx ∧ StrCells rRows rAttrIdx) :
     applyMatcherSplit a candLIdx candRIdx lRows rRows lKeyIdx lAttrIdx rKeyIdx rAttrIdx o tok sim cache chunk
       = .ok (chunk.filterMap (matcherSpecFn a candLIdx candRIdx lRows rRows lKeyIdx lAttrIdx rKeyIdx rAttrIdx o tok sim)) := by
@@ -1119,10 +1130,11 @@ theorem matcherRRows_keys (a : MatcherArgs) (r : Frame) :
   rw [h0, matcherRRows, List.map_map]
   rfl
 
-theorem buildDict_isSome_of_mem (rows : List Row) (keyIdx : Nat) (h : (rows.map (·.cell keyIdx)).Nodup) (k : Cell)
-    (hk : k ∈ rows.map (·.cell keyIdx)) : (Dict.get? (buildDict rows keyIdx) k).isSome := by
-  obtain ⟨row, hrow, rfl⟩ := List.mem_map.1 hk
-  rw [buildDict_get rows keyIdx h row hrow]
+theorem buildDict_isSome_of_mem (rows : List Row) (keyIdx : Nat) (h : PyDistinct (rows.map (·.cell keyIdx))) (k : Cell)
+    (hk : PyMem k (rows.map (·.cell keyIdx))) : (Dict.getPy? (buildDict rows keyIdx) k).isSome := by
+  obtain ⟨k', hk', he⟩ := hk
+  obtain ⟨row, hrow, rfl⟩ := List.mem_map.1 hk'
+  rw [buildDict_get rows keyIdx h row hrow k he]
   rfl
 
 theorem matcherTableSpec_length (a : MatcherArgs) (t : Option TokObj) (toks : TokFn) (sim : SimArg → SimArg → PyV)
@@ -1223,7 +1235,8 @@ theorem matcherCacheM_eq (a : MatcherArgs) (t : Option TokObj) (toks : TokFn) (c
     simp only [Option.map_some, h1, h2, Bool.and_self, if_true, decide_eq_true_eq]
     split <;> rfl
 
-/-- (C05 end to end) when the validations succeed and every candidate key occurs in its table,
+/-- (C05 end to end) when the validations succeed and every candidate key occurs in its table (up to Python
+    equality, `PyMem`: the lookups are `Dict.getPy?`),
     `apply_matcher` returns — for every `a.nJobs`, provided the chunking is a partition (`hchunks`), and
     whether or not the token cache is used — the candset itself if it is empty, and otherwise the frame
     whose rows are exactly the spec rows of the candidate rows, in candset order (the index restarts
@@ -1238,8 +1251,8 @@ theorem applyMatcher_spec (a : MatcherArgs) (t : Option TokObj) (toks : TokFn) (
     (hv8 : ∀ tk, t = some tk → validateTokenizer tk = .ok ())
     (hv9 : genCheck (Gen.validate_comp_op (.str a.compOp)) = .ok ())
     (hv10 : validateKeyAttr a.lKey l = .ok ()) (hv11 : validateKeyAttr a.rKey r = .ok ())
-    (hl : ∀ cr ∈ c.rows, cr.cell (c.colIdx a.candLKey) ∈ l.col a.lKey)
-    (hr : ∀ cr ∈ c.rows, cr.cell (c.colIdx a.candRKey) ∈ r.col a.rKey)
+    (hl : ∀ cr ∈ c.rows, PyMem (cr.cell (c.colIdx a.candLKey)) (l.col a.lKey))
+    (hr : ∀ cr ∈ c.rows, PyMem (cr.cell (c.colIdx a.candRKey)) (r.col a.rKey))
     (hchunks : (chunksFor c.rows a.nJobs cpu).flatten = c.rows)
     (hstr : t.isSome → Props.StrColumn l a.lAttr ∧ Props.StrColumn r a.rAttr) :
     applyMatcher a t toks sim cpu
@@ -1248,10 +1261,10 @@ theorem applyMatcher_spec (a : MatcherArgs) (t : Option TokObj) (toks : TokFn) (
             index := (chunksFor c.rows a.nJobs cpu).flatMap (fun ch =>
               (List.range (ch.filterMap (matcherTableSpec a t toks sim c l r)).length).map (fun (i : Nat) => Cell.int i))
             rows := c.rows.filterMap (matcherTableSpec a t toks sim c l r) }) := by
-  have hlk : ((matcherLRows a l).map (·.cell ((matcherLProj a).idxOf a.lKey))).Nodup := by
-    rw [matcherLRows_keys]; exact nodup_of_validateKeyAttr _ _ hv10
-  have hrk : ((matcherRRows a r).map (·.cell ((matcherRProj a).idxOf a.rKey))).Nodup := by
-    rw [matcherRRows_keys]; exact nodup_of_validateKeyAttr _ _ hv11
+  have hlk : PyDistinct ((matcherLRows a l).map (·.cell ((matcherLProj a).idxOf a.lKey))) := by
+    rw [matcherLRows_keys]; exact pyDistinct_of_validateKeyAttr _ _ hv10
+  have hrk : PyDistinct ((matcherRRows a r).map (·.cell ((matcherRProj a).idxOf a.rKey))) := by
+    rw [matcherRRows_keys]; exact pyDistinct_of_validateKeyAttr _ _ hv11
   have hmem : ∀ ch ∈ chunksFor c.rows a.nJobs cpu, ∀ cr ∈ ch, cr ∈ c.rows := by
     intro ch hch cr hcr
     rw [← hchunks]; exact List.mem_flatten.2 ⟨ch, hch, hcr⟩
@@ -1349,8 +1362,8 @@ theorem applyMatcher_rows (a : MatcherArgs) (t : Option TokObj) (toks : TokFn) (
     (hv8 : ∀ tk, t = some tk → validateTokenizer tk = .ok ())
     (hv9 : genCheck (Gen.validate_comp_op (.str a.compOp)) = .ok ())
     (hv10 : validateKeyAttr a.lKey l = .ok ()) (hv11 : validateKeyAttr a.rKey r = .ok ())
-    (hl : ∀ cr ∈ c.rows, cr.cell (c.colIdx a.candLKey) ∈ l.col a.lKey)
-    (hr : ∀ cr ∈ c.rows, cr.cell (c.colIdx a.candRKey) ∈ r.col a.rKey)
+    (hl : ∀ cr ∈ c.rows, PyMem (cr.cell (c.colIdx a.candLKey)) (l.col a.lKey))
+    (hr : ∀ cr ∈ c.rows, PyMem (cr.cell (c.colIdx a.candRKey)) (r.col a.rKey))
     (hchunks : (chunksFor c.rows a.nJobs cpu).flatten = c.rows)
     (hstr : t.isSome → Props.StrColumn l a.lAttr ∧ Props.StrColumn r a.rAttr) :
     ∃ f, applyMatcher a t toks sim cpu = .ok f ∧
